@@ -30,7 +30,10 @@ LEVEL_TEXT = ('Lean 4 theorems, for all input fields/offsets, samplings, tilt sh
               '(call_mask_matching), the call ends in ValueError iff the mask differs from the output array in EITHER dimension (call_mask_refused_iff), so an '
               'accepted mask has the output shape (accepted_mask_has_output_shape; former_mask_witness_refused: the 8x10 / 10x8 masks of the fixed finding are refused) — the '
               'defaults, the broadcasting, the guard, the threshold and both out_extent calls are regenerated from propagate_dft. For a common shift the sum over fields is '
-              'the Fraunhofer sum of Wavefront.field of the input (propagateDft_common_shift; propagateDft_common_real_shift with the split derived by np.fix: window centred at trunc(shift), value at g − shift).')
+              'the Fraunhofer sum of Wavefront.field of the input (propagateDft_common_shift; propagateDft_common_real_shift with the split derived by np.fix: window centred at trunc(shift), value at g − shift). '
+              'The call on a wavefront of any plane type (propagateDftTyped: _propagate_ptype as regenerated in Gen.codePropagate, placed by the regenerated statement positions '
+              'Gen.dftPtypeStmt / Gen.dftMaskGuardStmt): pupil -> image and image -> pupil run the SAME propagateDftCall with the plane type flipped (both_directions_same_call), '
+              'a wavefront without plane type is refused with TypeError before the mask guard, whatever the mask (untyped_refused_before_mask_guard).')
 LEVEL_NOTE = ('Partial: trunc on floats enters as the class operation TruncLike.trunc (Float truncation in the driver, floor/ceil by sign at R); '
               'the two are tied by the differential check of every split and by a probe of 8 adversarial doubles per case (integers +-1 ulp, halves, '
               '+-0.0, subnormals, up to 2**52) compared exactly with np.fix. oversample also scales the shift, which is C04\'s Field.shift. '
@@ -43,13 +46,14 @@ RULE = ('cases: pupils 1..6 x 1..6 (even/odd/non-square, off-centre support, 1..
         'random masks (rectangles with holes, single pixels; 1 in 12 all-zero, 1 in 6 of a wrong shape in one or both dimensions), optional Tilt planes (sub-pixel to beyond the output), and the '
         'image->pupil direction (second propagation of a propagated wavefront); distinct = (direction, pupil shape, offsets, os, '
         'shape, prop_shape, mask box, tilt class); non-trivial = window clipped / mask / tilt / per-axis sampling / offset field'
-        ' Extremes stream (5% of quick, 240 cases in search/thorough): every length scaled by 1e-9..1e3, per-axis pixel scales differing by a relative 1e-5..5e-3 only, large (64..100) critically sampled pupils with an odd dimension (oracle only).')
+        ' Extremes stream (5% of quick, 240 cases in search/thorough): every length scaled by 1e-9..1e3, per-axis pixel scales differing by a relative 1e-5..5e-3 only, large (64..100) critically sampled pupils with an odd dimension (oracle only). Untyped stream (8 quick / 60 search / 120 thorough): wavefront through a plain Plane (plane type none), every second with a mask of the wrong shape. Every result is READ four times (Wavefront.field, Wavefront.intensity, field again, intensity again: field.insert and field.reduce -> _disjoint -> _merge); the oracle requires every read to equal the Fraunhofer reference (|.|^2 for intensity).')
 TRUSTED = ['Field.shift (the real-valued shift of a field, in output samples) as proved in C04; lentil.boundary = C20 model boundary∘gtMask (boundary_is_bbox)',
            'np.dot(E1.dot(f), E2), np.exp, np.outer, np.fix, np.broadcast_to as modelled in Model/Fourier.lean and Model/Propagate.lean',
            'lentil.fourier.dft2 = Model dft2 (checked by C01); lentil.field.insert = Model insertArr (checked by C06)']
 UNPROVEN = ['np.fix on IEEE doubles = TruncLike.trunc: class operation, tied differentially (splits of every case + adversarial probe)',
             'np.broadcast_to(x, (2,)) for an int or a pair: NumPy contract (ShapeArg.bcast2)']
-ASSUMPTIONS = ['oversample is an integer >= 1 (the docstring says float; a non-integer oversample gives float shapes and fails downstream: not supported by propagate_dft, not generated)',
+ASSUMPTIONS = ['untyped wavefronts (plane type none: only plain lentil.Plane met) are generated with and without masks, masks of the wrong shape included: TypeError expected (oracle), model = propagateDftTyped; they carry no tilt (focal length is inf there)',
+               'oversample is an integer >= 1 (the docstring says float; a non-integer oversample gives float shapes and fails downstream: not supported by propagate_dft, not generated)',
                'shape >= 1, prop_shape >= 1; the wavefront has passed through a plane (wavefront.shape is a pair)',
                'a mask whose shape differs from shape*oversample in one or both dimensions must be refused with ValueError (oracle; corpus case mask-8x10-for-8x8-output)',
                'a mask without support must be refused: ValueError or NumPy\'s IndexError are both accepted as the refusal',
@@ -380,10 +384,18 @@ def impl(c):
         else:
             observed = False
             fx = np.fix(f['shift']); f['fix'] = [int(fx[0]), int(fx[1])]; f['sub'] = [f['shift'][a] - f['fix'][a] for a in (0, 1)]
-    return {'in': inp, 'observed_split': observed,
+    # the propagated wavefront is read as a caller does: Wavefront.field, Wavefront.intensity, and both AGAIN (a view must not change the
+    # wavefront: Wavefront.intensity goes through field.reduce -> _disjoint -> _merge, Wavefront.field through field.insert)
+    try:
+        f1 = o.field; i1 = o.intensity; f2 = o.field; i2 = o.intensity
+    except Exception as e:
+        return {'in': inp, 'exc': type(e).__name__, 'msg': 'reading Wavefront.field / Wavefront.intensity of the result: ' + str(e)[:160]}
+    reads = {'int1': [float(x) for x in np.asarray(i1, dtype=float).ravel()], 'int2': [float(x) for x in np.asarray(i2, dtype=float).ravel()],
+             'int_shape': [int(x) for x in np.shape(i1)], 'field2': _cx(f2)}
+    return {'in': inp, 'observed_split': observed, 'reads': reads,
             'out_fields': [{'shape': list(f.data.shape), 'off': [int(f.offset[0]), int(f.offset[1])],
                             'pixelscale': [float(x) for x in np.broadcast_to(f.pixelscale, (2,))]} for f in o.data],
-            'out': _cx(o.field), 'wavelength': float(o.wavelength), 'focal_length': float(o.focal_length),
+            'out': _cx(f1), 'wavelength': float(o.wavelength), 'focal_length': float(o.focal_length),
             'pixelscale': [float(x) for x in o.pixelscale], 'ptype': str(o.ptype), 'shape': [int(x) for x in o.shape]}
 
 def _mask_box(stage):
@@ -572,6 +584,23 @@ def oracle(c, io):
         k = np.argwhere((d > _tol(io)) & win_any)[0]
         return (f'sample ({k[0]},{k[1]}) = {got[k[0], k[1]]:.6g} but the Fraunhofer sum with alpha=({ar:.4g},{ac:.4g}) gives '
                 f'{complex(want[k[0], k[1]]):.6g} (max error {float(d[win_any].max()):.3e})')
+    # every read of the result shows the same Fraunhofer sum: Wavefront.intensity (= |field|^2), Wavefront.field again, Wavefront.intensity again
+    rd = io.get('reads')
+    if rd is not None:
+        W = want.astype(complex); WI = np.abs(W) ** 2
+        tol = _tol(io); tol_i = tol * (1.0 + 2.0 * (float(np.max(np.abs(W))) if W.size else 0.0))
+        nf = len(io.get('out_fields', []))
+        if rd['int_shape'] != list(S): return f"Wavefront.intensity has shape {rd['int_shape']}, expected {S}"
+        for name, what, ref, t_ in (('int1', 'Wavefront.intensity (first read, after Wavefront.field)', WI, tol_i),
+                                    ('field2', 'Wavefront.field read again after Wavefront.intensity', W, tol),
+                                    ('int2', 'Wavefront.intensity read a second time', WI, tol_i)):
+            v = ((np.array(rd[name]['re']) + 1j * np.array(rd[name]['im'])).reshape(rd[name]['shape']) if name == 'field2' else np.array(rd[name]).reshape(S))
+            if v.shape != ref.shape: return f'{what}: shape {v.shape}, expected {ref.shape}'
+            e_ = np.abs(v - ref)
+            if e_.size and float(e_.max()) > t_:
+                k = np.argwhere(e_ > t_)[0]
+                return (f'{what} differs from the Fraunhofer sum of the input field at sample ({k[0]},{k[1]}): {v[k[0], k[1]]:.6g} vs {ref[k[0], k[1]]:.6g} '
+                        f'(max error {float(e_.max()):.3e}, {nf} output fields; the first Wavefront.field read was exact)')
     return None
 
 # ------------------------------------------------------------------------------------------ coverage
